@@ -19,11 +19,44 @@ EXPLANATION += (
 EXPLANATION += (  # round-3 supplement
     ' M6 the element loop of script-side equality is dominated by a comparison of both lengths read under the held guards. M7 two mutexes held together are acquired in address order. M8 functions that own an element they are given drop it on every return path. M4 is decided by boolean path simulation over the index/len comparisons.'
 )
+EXPLANATION += (
+    ' M2 accepts a helper that only takes the two locks when every caller has proven the arguments distinct (Arc::ptr_eq) before the call; M6 follows guards handed out by a tuple-returning helper. M9 List.join is the std slice join applied to a snapshot (to_vec) and the separator parameter.'
+)
 ASSUMPTIONS = [
     "std::sync::Mutex is not re-entrant; a second lock() on a held mutex in one thread deadlocks or panics",
     "origin tracing is flow-insensitive over single-definition MIR temporaries; user variables that are re-assigned are treated as distinct roots",
     "values of operation histories (push/get/swap results) are not decided statically",
 ]
+
+
+def _ptr_eq_guard(b, defs, dom, keys, targets):
+    """Is there an Arc::ptr_eq on exactly the two mutex origins `keys` that dominates every block in `targets` and whose true edge
+    cannot reach any of them?"""
+    for ci, ct in mir.calls(b):
+        if not (mir.callee_def(ct) or "").endswith("::ptr_eq"):
+            continue
+        ks = set()
+        for a in ct["args"]:
+            if mir.is_place_op(a):
+                ks.add(mir.origin_key(b, defs, a[1]))
+        if ks != set(keys):
+            continue
+        if any(ci not in dom[x] for x in targets):
+            continue
+        nxt = ct.get("t")
+        if nxt is None:
+            continue
+        sw = b.blocks[nxt]["term"]
+        if sw["k"] != "switch":
+            continue
+        true_targets = [sw["otherwise"]] + [x[1] for x in sw["targets"] if x[0] != 0]
+        reach = set()
+        for tt in true_targets:
+            reach |= mir.reachable_from(b, tt)
+        if any(x in reach for x in targets):
+            continue
+        return True
+    return False
 
 
 def _analyse(bodies, res_m1, res_m2, summaries, res_m7=None):
@@ -62,32 +95,25 @@ def _analyse(bodies, res_m1, res_m2, summaries, res_m7=None):
                                     {"fn": b.path, "held": okey, "acquired": key, "line": t["line"]})
                         if dom is None:
                             dom = mir.dominators(b)
-                        ok = False
-                        for ci, ct in mir.calls(b):
-                            if not mir.callee_def(ct).endswith("::ptr_eq"):
-                                continue
-                            ks = set()
-                            for a in ct["args"]:
-                                if mir.is_place_op(a):
-                                    ks.add(mir.origin_key(b, defs, a[1]))
-                            if ks != {okey, key}:
-                                continue
-                            if ci not in dom[bi] or ci not in dom[tok]:
-                                continue
-                            # the true edge must not reach either acquisition
-                            nxt = ct.get("t")
-                            if nxt is None:
-                                continue
-                            sw = b.blocks[nxt]["term"]
-                            if sw["k"] != "switch":
-                                continue
-                            true_targets = [sw["otherwise"]] + [x[1] for x in sw["targets"] if x[0] != 0]
-                            reach = set()
-                            for tt in true_targets:
-                                reach |= mir.reachable_from(b, tt)
-                            if bi in reach or tok in reach:
-                                continue
-                            ok = True
+                        ok = _ptr_eq_guard(b, defs, dom, {okey, key}, [bi, tok])
+                        if not ok:
+                            # a helper that only takes the locks ("lock two distinct lists"): every caller must have proven the
+                            # two arguments distinct before the call
+                            sites = [(cb, ci, ct) for cb in bodies if cb.mir for ci, ct in mir.calls(cb) if mir.callee(ct) == b.path]
+                            if sites:
+                                good = 0
+                                for cb, ci, ct in sites:
+                                    cdefs = mir.Defs(cb)
+                                    cdom = mir.dominators(cb)
+                                    mapped = set()
+                                    for k_ in (okey, key):
+                                        head, _, rest = k_.partition(".")
+                                        ai = int(head[3:]) - 1 if head[3:].isdigit() else -1
+                                        if 0 <= ai < len(ct["args"]) and mir.is_place_op(ct["args"][ai]):
+                                            mapped.add(mir.origin_key(cb, cdefs, ct["args"][ai][1]) + ("." + rest if rest else ""))
+                                    if len(mapped) == 2 and _ptr_eq_guard(cb, cdefs, cdom, mapped, [ci]):
+                                        good += 1
+                                ok = good == len(sites)
                         if not ok:
                             res_m2.bad(b.path, okey + "+" + key, relfile(b.file), t["line"],
                                        "guards on two parameters (%s, %s) are held together without a dominating Arc::ptr_eq whose true edge leaves: aliasing arguments deadlock"
@@ -320,8 +346,9 @@ def rule_m6(F):
     """Lists of different length are different: the element-wise comparison loop of the script-side list equality only runs
     behind a comparison that relates the lengths of BOTH lists (walking the left list and looking each index up in the right one
     accepts every proper prefix)."""
-    from .c08 import deps
+    from .c08 import deps, FIELD_SUMMARY
     from ..report import RuleResult as RR
+    FIELD_SUMMARY["F"] = F  # guards handed out by a tuple-returning helper (`let (a, b) = lock_both(x, y)`) keep their own list
     r = RR("C15.M6", "list equality compares the lengths of both lists before comparing elements", floor=1)
     fn = "<value::list::ErasedList as std::cmp::PartialEq>::eq"
     b = F.body(fn)
@@ -353,13 +380,16 @@ def rule_m6(F):
                     under = []
                     for o in (d[3]["rv"]["a"], d[3]["rv"]["b"]):
                         chain = mir.value_chain(b, defs, o[1][0]) if mir.is_place_op(o) else []
-                        through_guard = False
-                        for c in chain:
+                        guard_at = None
+                        for ci, c in enumerate(chain):
                             tc = b.blocks[c[0]]["term"]
                             if c[2].endswith("Deref::deref") and tc["args"] and mir.is_place_op(tc["args"][0]) \
                                     and "MutexGuard" in b.mir["locals"][tc["args"][0][1][0]]["ty"]:
-                                through_guard = True
-                        under.append(through_guard and not any(c[2].startswith("value::list::") for c in chain))
+                                guard_at = ci
+                                break
+                        # what produced the guard (a lock call, a helper handing out guards) does not matter; a crate call applied
+                        # to the value AFTER it left the guard would
+                        under.append(guard_at is not None and not any(c[2].startswith("value::list::") for c in chain[:guard_at]))
                     if all(under):
                         gates.append(bi)
                     else:
@@ -441,6 +471,40 @@ def _scope(F):
     return [b for b in F.all_bodies() if b.mir]
 
 
+def rule_m9(F):
+    """`join` gives what joining the shared vector gives: the script built-in is the standard slice join applied to a snapshot of the
+    list (List::to_vec) and the separator it was given - delegation, not a re-implementation of where separators go."""
+    from ..registry import registrations
+    r = RuleResult("C15.M9", "List.join is the std slice join of a snapshot of the list with the given separator", floor=1)
+    regs = [g for g in registrations(F) if g["name"] == "join" and "ErasedList" in (g["self_ty"] or "")]
+    if not regs:
+        r.missing("registration of `join` on the list type")
+        return r
+    for g in regs:
+        b = F.body(g["body"]) if g["body"] else None
+        if b is None or not b.mir:
+            r.missing("body of the `join` built-in")
+            continue
+        defs = mir.Defs(b)
+        joins = [(bi, t) for bi, t in mir.calls(b) if (mir.callee_def(t) or "") in ("std::slice::<impl [T]>::join", "alloc::slice::<impl [T]>::join", "std::slice::Join::join")
+                 or ((mir.callee_def(t) or "").endswith("::join") and ("slice" in (mir.callee_def(t) or "") or "Join" in (mir.callee_def(t) or "")))]
+        snap = [bi for bi, t in mir.calls(b) if hir.last(mir.callee(t) or "").startswith("to_vec") and "list" in (mir.callee(t) or "")]
+        ok = False
+        for bi, t in joins:
+            from .c08 import deps
+            a0 = t["args"][0] if t["args"] else None
+            a1 = t["args"][1] if len(t["args"]) > 1 else None
+            recv_from_snapshot = mir.is_place_op(a0) and any(x in mir.back_calls(b, defs, a0[1][0]) for x in snap)
+            sep_is_param = mir.is_place_op(a1) and any(x.split(".")[0] == "arg2" for x in deps(b, defs, a1[1][0]))
+            ok = ok or (recv_from_snapshot and sep_is_param)
+        r.inst("join built-in", {"body": b.path, "slice_join_calls": len(joins), "on_snapshot_with_separator_parameter": ok})
+        if not ok:
+            r.bad(b.path, "join is not the slice join of the snapshot", relfile(b.file), b.line,
+                  "the `join` built-in does not apply the standard slice join to List::to_vec and its separator parameter: a hand-written loop decides where separators go "
+                  "(e.g. skips them while the accumulated text is empty: `[\"\", \"a\"].join(\",\")` gives \"a\" instead of \",a\")")
+    return r
+
+
 def rules(ctx):
     F = ctx["F"]
     bodies = _scope(F)
@@ -455,7 +519,7 @@ def rules(ctx):
                    "value::list::ErasedList::concat"):
         if not F.has(anchor):
             m1.missing(anchor)
-    return [m1, m2, rule_m4(F), rule_m5(F), rule_m6(F), m7, rule_m8(F)]
+    return [m1, m2, rule_m4(F), rule_m5(F), rule_m6(F), m7, rule_m8(F), rule_m9(F)]
 
 
 def canary(C):
